@@ -115,24 +115,19 @@ def run(ck, facts, tier):
                 ck.check(r1, key, ok, why, where, sample="(k, v) -> (k, %s-valued v), keys unchanged" % tgt)
     # get_variable_tags body: name + i over 0..range
     g = facts.fn("dual::get_variable_tags")
-    okg = False
+    okg, detg = False, None
     if g:
-        body = g["body"]
-        rng = [e for e in hir.walk(body) if e.get("k") == "struct" and (e.get("def") or "").endswith("ops::Range")]
-        clos = [e for e in hir.walk(body) if e.get("k") == "closure"]
-        if len(clos) == 1 and len(rng) == 1:
-            start = dict((n, v) for n, v in rng[0]["fields"]).get("start", {})
-            end = dict((n, v) for n, v in rng[0]["fields"]).get("end", {})
-            b = clos[0]["body"]
-            while b.get("k") == "block" and not b["stmts"] and "e" in b:
-                b = b["e"]
-            def loc(x):
-                while x.get("k") in ("ref", "mcall") and (x.get("k") == "ref" or x["m"] in ("to_string", "clone", "as_str")):
-                    x = x["e"] if x["k"] == "ref" else x["recv"]
-                return x.get("name") if x.get("k") == "path" else None
-            okg = start.get("v") == "0" and loc(end) == g["params"][1].get("name") and b.get("k") == "bin" and b["op"] == "Add" and \
-                loc(b["l"]) == g["params"][0].get("name") and loc(b["r"]) == clos[0]["params"][0].get("name")
-    ck.check(r2, "get_variable_tags", okg, "get_variable_tags(name, n) is not [name + i for i in 0..n]", sample="(0..n).map(|i| name + i)")
+        # evaluated: [name + text(i) for i in 0..n] — `name.to_string() + &i.to_string()`, `format!("{name}{i}")`, a push loop or a map are one form
+        try:
+            NM, NN = Sym("param", "name"), Poly.atom("range")
+            gv = cel.Ev(facts).apply_fn("dual::get_variable_tags", [NM, NN], 0)
+            detg = cel.vfmt(gv)[:300]
+            if isinstance(gv, Coll) and cel.vkey(gv.seq.src) == cel.vkey(Sym("range", Poly.const(0).key(), NN.key())):
+                i_ = Poly.atom("i")
+                okg = cel.vkey(gv.seq.fn(i_)) == cel.vkey(cel.concat_sym([cel.vkey(NM), cel.vkey(Sym("display", i_.key()))]))
+        except Unsupported as e_:
+            detg = "rule could not be established (%s)" % e_
+    ck.check(r2, "get_variable_tags", okg, "get_variable_tags(name, n) is not [name + i for i in 0..n]", detail=detg, sample="(0..n).map(|i| name + i)")
     # nodes_into_order
     nio = "curves::curve_py::nodes_into_order"
     r = facts.fn(nio)
@@ -151,8 +146,16 @@ def run(ck, facts, tier):
             key = "nodes_into_order(->%s)" % order
             nodes = Sym("param", "nodes")
             sorted_nodes = Sym("mut", "sort_keys", cel.vkey(nodes), ())          # the map after `nodes.sort_keys()`: same entries, walked in date order
-            ev = cel.Ev(facts, hooks={**hooks, "@elem": lambda cont: Tup([Poly.atom("k"), Sym("ctor", "F64", Poly.atom("v"))])
-                                      if cel.vkey(cont) in (cel.vkey(nodes), cel.vkey(sorted_nodes)) else None})
+            n = Poly.atom(("len", cel.vkey(nodes), None))
+            tags = Sym("tags", cel.vkey(Sym("id")), n.key())
+
+            def elem_(cont):
+                if cel.vkey(cont) in (cel.vkey(nodes), cel.vkey(sorted_nodes)):
+                    return Tup([Poly.atom("k"), Sym("ctor", "F64", Poly.atom("v"))])
+                if cel.vkey(cont) == cel.vkey(tags):
+                    return lambda idx: Poly.atom(("call", "index", (cel.vkey(tags), idx.key())))      # walking the tag list reaches the same element as tags[i]
+                return None
+            ev = cel.Ev(facts, hooks={**hooks, "@elem": elem_})
             try:
                 res = ev.apply_fn(nio, [nodes, Sym("ctor", order), Sym("id")], 0)
             except Unsupported as e:
@@ -161,10 +164,9 @@ def run(ck, facts, tier):
             ok = isinstance(res, Sym) and res.tag[:2] == ("ctor", tgt) and isinstance(res.tag[2], Coll)
             if ok:
                 sk = res.tag[2].seq.key()
-                ok = sk[0] == "seq" and sk[1] in (cel.vkey(nodes), cel.vkey(sorted_nodes))
+                zipped = sk[0] == "seq" and sk[1] in [cel.vkey(Sym("zip", cel.vkey(x), cel.vkey(tags))) for x in (nodes, sorted_nodes)]      # i-th node with i-th tag
+                ok = sk[0] == "seq" and (sk[1] in (cel.vkey(nodes), cel.vkey(sorted_nodes)) or zipped)
                 if ok and tgt != "F64":
-                    n = Poly.atom(("len", cel.vkey(nodes), None))
-                    tags = Sym("tags", cel.vkey(Sym("id")), n.key())
                     tag_i = Poly.atom(("call", "index", (cel.vkey(tags), Poly.atom("i").key())))
                     newvars = Sym("collect", cel.vkey(Tup([tag_i])))
                     nn = Poly.atom(("len", newvars.key(), None)).key()
@@ -172,7 +174,7 @@ def run(ck, facts, tier):
                     if tgt == "Dual2":
                         f["dual2"] = Poly({}, 2)
                     want = Tup([Poly.atom("k"), Rec(D1 if tgt == "Dual" else D2, f)])
-                    ok = sk[2] == cel.vkey(want) and sk[3]
+                    ok = sk[2] == cel.vkey(want) and (sk[3] or zipped)
                 elif ok:
                     ok = sk[2] == cel.vkey(Tup([Poly.atom("k"), Poly.atom("v")]))
             ck.check(r2, key, ok, "a float node supplied to the curve constructor is not tagged vars[i] by enumerate index (or its value/key changes): %s" % cel.vfmt(res)[:400], where,
